@@ -151,6 +151,19 @@ def check_limit_adapter(res, facts, trait, head, tname, inner_rem, chunk_m, adv_
             v = strip_refs(canon(pe.local(0, (path[-1], len(b.blocks[path[-1]]["stmts"])))))
             rels = path_relations(b, facts, path)
             ctx = Ctx(b, path[0], facts, extra=rels)
+            def get_limit(e):
+                """e = chunk.get(..limit) / get_mut(..limit)"""
+                e = strip_refs(canon(e))
+                return isinstance(e, tuple) and e and e[0] == "call" and e[1].rsplit("::", 1)[-1] in ("get", "get_mut") and len(e[2]) == 2 and isch(strip_refs(e[2][0])) \
+                    and isinstance(e[2][1], tuple) and e[2][1][0] == "agg" and "RangeTo" in str(e[2][1][1]) and "Inclusive" not in str(e[2][1][1]) and lim(canon(e[2][1][2][0]))
+            # `match bytes.get(..limit) { Some(head) => head, None => bytes }`
+            if isinstance(v, tuple) and v and v[0] == "field" and isinstance(v[1], tuple) and v[1] and v[1][0] == "variant" and v[1][2] == "Some" and get_limit(v[1][1]):
+                n_ok += 1
+                continue
+            if isch(v) and any(r[0] in ("truth", "notin") and isinstance(r[1], tuple) and r[1] and r[1][0] == "discr" and get_limit(r[1][1]) and
+                               ((r[0] == "truth" and r[2] == 0) or (r[0] == "notin" and 1 in tuple(r[2]))) for r in rels if r and len(r) > 2):
+                n_ok += 1
+                continue
             if isch(v):
                 ln = ("call", "core::slice::<impl [T]>::len", (v,))
                 if any(r[0] in ("le", "lt") and lim(canon(r[2])) and len_of(isch)(canon(r[1])) for r in rels if r and len(r) > 2 and isinstance(r[1], tuple) and isinstance(r[2], tuple)) \
@@ -231,7 +244,8 @@ def check_limit_adapter(res, facts, trait, head, tname, inner_rem, chunk_m, adv_
                     any(r[0] in ("ne", "lt") and len(r) > 2 and isinstance(r[1], tuple) and isinstance(r[2], tuple) and
                         ((is_rem(strip_refs(canon(r[1]))) and canon(r[2]) == ("const", 0)) or (canon(r[1]) == ("const", 0) and is_rem(strip_refs(canon(r[2]))))) for r in rels)
                 inner_no = any(r[0] == "truth" and is_has(strip_refs(canon(r[1]))) and r[2] == 0 for r in rels) or \
-                    any(r[0] == "eq" and len(r) > 2 and isinstance(r[1], tuple) and is_rem(strip_refs(canon(r[1]))) and canon(r[2]) == ("const", 0) for r in rels)
+                    any(r[0] in ("eq", "le") and len(r) > 2 and isinstance(r[1], tuple) and is_rem(strip_refs(canon(r[1]))) and canon(r[2]) == ("const", 0) for r in rels)
+                lim_z = lim_z or any(r[0] == "le" and len(r) > 2 and isinstance(r[1], tuple) and lim(canon(r[1])) and canon(r[2]) == ("const", 0) for r in rels)
                 if isinstance(v, tuple) and v and v[0] == "const":
                     if v[1] in (1, True) and not (lim_nz and inner_yes):
                         return ["answers true on a path where `limit != 0` and `inner.%s()` are not both known" % has_m]
@@ -241,6 +255,15 @@ def check_limit_adapter(res, facts, trait, head, tname, inner_rem, chunk_m, adv_
                 # a computed answer: it must be the inner answer under limit != 0, or a comparison of remaining() / min(..) with 0
                 sv = strip_refs(v)
                 if is_has(sv) and lim_nz:
+                    continue
+
+                def nonzero_test(e, pred):
+                    return isinstance(e, tuple) and e and e[0] == "bin" and ((e[1] in ("Ne", "Gt") and pred(strip_refs(canon(e[2]))) and canon(e[3]) == ("const", 0)) or
+                                                                          (e[1] in ("Ne", "Lt") and canon(e[2]) == ("const", 0) and pred(strip_refs(canon(e[3])))))
+                # the other conjunct, computed: `limit > 0` where the inner buffer is known to have bytes, `inner.remaining() > 0` where limit != 0 is known
+                if inner_yes and nonzero_test(sv, lim):
+                    continue
+                if lim_nz and nonzero_test(sv, is_rem):
                     continue
                 if isinstance(sv, tuple) and sv[0] == "bin" and sv[1] in ("Ne", "Gt", "Lt") and any(is_min_of(canon(x), ucall_on(inner_rem, "inner"), lim) or
                         (isinstance(x, tuple) and x[0] in ("call", "ucall") and str(x[1]).rsplit("::", 1)[-1] == inner_rem and strip_refs(canon(x[2][0])) in (("param", 1), ("deref", ("param", 1)))) for x in (sv[2], sv[3])):
@@ -394,6 +417,23 @@ def check_chain(res, facts, trait, rem_m, has_m, touching):
                         # ret.put(&mut self.a): BufMut::put drains its source
                         if cfn["name"] == "put" and len(cargs) > 1 and a_f(strip_refs(canon(cargs[1]))):
                             w = "put(&mut a) drained a"
+                if w is None:
+                    # `let (head, tail) = dst.split_at_mut(min(a.remaining(), dst.len())); fill(a, head); fill(b, tail)`: b's part is non-empty
+                    # only if the cut is a.remaining(), i.e. only if a's part is everything a holds
+                    def split_part(e, idx):
+                        e = strip_refs(canon(e))
+                        if isinstance(e, tuple) and e and e[0] == "field" and str(e[2]) == str(idx) and isinstance(e[1], tuple) and e[1] and e[1][0] == "call" \
+                                and e[1][1].rsplit("::", 1)[-1] in ("split_at_mut", "split_at") and len(e[1][2]) == 2:
+                            return e[1]
+                        return None
+                    sb = split_part(args[1], 1) if len(args) > 1 else None
+                    if sb is not None:
+                        D, K = strip_refs(sb[2][0]), canon(sb[2][1])
+                        cut_ok = is_min_of(K, is_a_rem, lambda z: isinstance(z, tuple) and z and z[0] in ("call", "ucall") and str(z[1]).rsplit("::", 1)[-1] == "len" and strip_refs(canon(z[2][0])) == D)
+                        a_first = any(cbi in pre[:-1] and a_f(strip_refs(canon(cargs[0]))) and len(cargs) > 1 and split_part(cargs[1], 0) == sb
+                                      for (cbi, cfn, cargs, ct) in cs if cargs)
+                        if cut_ok and a_first:
+                            w = "b receives the tail of split_at(min(a.%s(), len)), a the head, first" % rem_m
                 if w is None:
                     bad_path = pre
                     break
